@@ -311,7 +311,7 @@ int main(int argc, char **argv)
       p.enum_count = [] { return (uint64_t)2; }; p.enum_at = [](uint64_t i) { return std::vector<uint64_t>{i}; }; props.push_back(p); }
     // C07: every length 0..200 exhaustively (several contents each), random lengths up to 5000
     { pbt::PropDef p{"c07.lengths", [] { return rc::gen::just(std::vector<uint64_t>{0, 0}); }, body_linear_hash, 0, false, desc_lh, 100};
-      p.enum_count = [] { return (uint64_t)(201 * (g_level >= 1 ? 16 : 4)); }; p.enum_at = [](uint64_t i) { return std::vector<uint64_t>{i % 201, pbt::mix(i, 3)}; }; props.push_back(p); }
+      p.enum_count = [] { return (uint64_t)(201 * (g_level >= 1 ? 16 : 4)); }; p.enum_at = [](uint64_t i) { return std::vector<uint64_t>{((i % 201) * 37) % 201 /* every length once per round, in a scrambled order: consecutive calls differ in their residue mod 8 */, pbt::mix(i, 3)}; }; props.push_back(p); }
     props.push_back({"c07.random", [] { return rc::gen::apply([](uint64_t len, uint64_t seed, std::vector<uint64_t> ex) { std::vector<uint64_t> v{len, seed}; if (ex.size() > len) ex.resize(len); v.insert(v.end(), ex.begin(), ex.end()); return v; },
                          rc::gen::weightedOneOf<uint64_t>({{4, g::range(0, 40)}, {3, g::range(0, 300)}, {1, g::range(0, 5000)}}), g::uni64(), rc::gen::container<std::vector<uint64_t>>(g::fe())); }, body_linear_hash, 1, false, desc_lh, 40});
     { pbt::PropDef p{"c08.enum", [] { return rc::gen::just(std::vector<uint64_t>{0, 0, 0, 1, 1, 0, 0}); }, body_merkle, 0, true, desc_merkle, 100};
